@@ -349,14 +349,26 @@ pub fn mutants(problem: &Value, solution: &Value) -> Vec<Mutant> {
             let (a, b) = (&w[0].1, &w[1].1);
             for kind in ["sequence", "strict"] {
                 p_mut("broken-relation", format!("tour{ti}.{kind}.[{b},{a}]"), &|p| {
-                    add_relation(p, json!({"type": kind, "jobs": [b, a], "vehicleId": vehicle_id, "shiftIndex": shift_index}));
+                    add_relation(p, crate::scen::relgen::relation_doc(kind, json!([b, a]), &vehicle_id, shift_index as u64, ti % 2 == 1));
                     true
                 }, &mut out);
             }
             if w[1].0 > w[0].0 + 1 {
                 // not adjacent: a strict relation demands adjacency
                 p_mut("broken-relation", format!("tour{ti}.strict.[{a},{b}]-not-adjacent"), &|p| {
-                    add_relation(p, json!({"type": "strict", "jobs": [a, b], "vehicleId": vehicle_id, "shiftIndex": shift_index}));
+                    add_relation(p, crate::scen::relgen::relation_doc("strict", json!([a, b]), &vehicle_id, shift_index as u64, ti % 2 == 1));
+                    true
+                }, &mut out);
+            }
+        }
+        // a job served by this tour is pinned to another shift of the same vehicle (for a tour of a later shift: to the
+        // default, first shift by leaving the shift index out)
+        if let Some((_, id)) = simple.first() {
+            let n_shifts = vt.and_then(|vt| problem["fleet"]["vehicles"][vt]["shifts"].as_array().map(|s| s.len())).unwrap_or(1);
+            if n_shifts > 1 {
+                let other_shift = if shift_index == 0 { 1 } else { 0 };
+                p_mut("broken-relation", format!("tour{ti}.sequence.{id}-on-shift{other_shift}-of-same-vehicle"), &|p| {
+                    add_relation(p, crate::scen::relgen::relation_doc("sequence", json!([id]), &vehicle_id, other_shift as u64, true));
                     true
                 }, &mut out);
             }
@@ -487,20 +499,21 @@ pub fn derived_relations(problem: &Value, solution: &Value, p: &mut Prng) -> Vec
         let shift_index = tour["shiftIndex"].as_u64().unwrap_or(0);
         let acts = tour_activity_ids(tour);
         let simple: Vec<(usize, String)> = acts.iter().enumerate().filter(|(_, (id, is_job))| *is_job && is_simple_job(problem, id)).map(|(i, (id, _))| (i, id.clone())).collect();
+        let omit = p.chance(0.5);
         match p.below(4) {
             0 => {
                 // any: a subset of the jobs of the tour
                 let jobs: BTreeSet<String> = tour_job_ids(tour).into_iter().filter(|_| p.chance(0.6)).collect();
                 let listed: Vec<String> = jobs.iter().flat_map(|j| vec![j.clone(); task_count(problem, j)]).collect();
                 if !listed.is_empty() {
-                    out.push(json!({"type": "any", "jobs": listed, "vehicleId": vehicle_id, "shiftIndex": shift_index}));
+                    out.push(crate::scen::relgen::relation_doc("any", json!(listed), vehicle_id, shift_index, omit));
                 }
             }
             1 => {
                 // sequence: a subsequence of simple jobs in tour order
                 let listed: Vec<String> = simple.iter().filter(|_| p.chance(0.6)).map(|x| x.1.clone()).collect();
                 if !listed.is_empty() {
-                    out.push(json!({"type": "sequence", "jobs": listed, "vehicleId": vehicle_id, "shiftIndex": shift_index}));
+                    out.push(crate::scen::relgen::relation_doc("sequence", json!(listed), vehicle_id, shift_index, omit));
                 }
             }
             2 => {
@@ -519,7 +532,7 @@ pub fn derived_relations(problem: &Value, solution: &Value, p: &mut Prng) -> Vec
                     let run = runs[p.usize(0, runs.len() - 1)].clone();
                     let from = p.usize(0, run.len() - 1);
                     let to = p.usize(from, run.len() - 1);
-                    out.push(json!({"type": "strict", "jobs": run[from..=to].to_vec(), "vehicleId": vehicle_id, "shiftIndex": shift_index}));
+                    out.push(crate::scen::relgen::relation_doc("strict", json!(run[from..=to].to_vec()), vehicle_id, shift_index, omit));
                 }
             }
             _ => {}
